@@ -64,10 +64,19 @@
 (*            SavedColumnsOwn (when savegrains returns, the columns of      *)
 (*            every owned peak were filled with the ubi and the translation *)
 (*            of its owner, for both values of sort_npks), SaveOrder        *)
+(*            StoredIsFitted (the translation a grain holds after a         *)
+(*            position refinement is the fitted value, also when the start  *)
+(*            was handed over as integers: START_INT)                       *)
+(* SIZE       the kernel walks the NP rows in chunks of BLOCK (4096 in the   *)
+(*            code).  In the rule as written the chunking cannot be seen    *)
+(*            (Visited = all rows) ; it names the dimension the harness      *)
+(*            binds: peak files with more than BLOCK rows and a remainder,  *)
+(*            every row still owned by its best grain (BestOwner)           *)
 (* bounds     NG grains, NP peaks, E error levels, MAXCALLS public calls :  *)
 (*            _q 2/1/3/5, _t 3/1/3/6, _t2 2/2/2/5 ; _bug (DROP_SETT),       *)
-(*            _bug2 (LAST_WINS) and _bug3 (SORT_OBJ_ONLY) are seeded        *)
-(*            defects that must be caught                                   *)
+(*            _bug2 (LAST_WINS), _bug3 (SORT_OBJ_ONLY), _bug4 (TAIL_COUNT,   *)
+(*            NP 3, BLOCK 2) and _bug5 (KEEP_DTYPE with START_INT) are      *)
+(*            seeded defects that must be caught                            *)
 (***************************************************************************)
 EXTENDS Integers, Sequences, FiniteSets, TLC
 
@@ -75,8 +84,14 @@ CONSTANTS NG, MAXCALLS, MAXFIT, NP, E,
           DROP_SETT,   \* TRUE: refineubis/savegrains forget set_translation (a seeded protocol defect: must be caught)
           LAST_WINS,   \* TRUE: score_and_assign labels every peak inside the tolerance (the last grain listed wins instead
                        \*       of the best fitting one; a seeded defect: BestOwner / OrderIndependent must catch it)
-          SORT_OBJ_ONLY \* TRUE: savegrains(sort_npks) re-orders the grain objects but not the keys they are paired with
+          SORT_OBJ_ONLY, \* TRUE: savegrains(sort_npks) re-orders the grain objects but not the keys they are paired with
                        \*       (a seeded defect: SavedColumnsOwn / NoBad must catch it)
+          BLOCK,       \* rows per chunk of the kernel's loop over the peak file (closest.c: schedule(static, 4096))
+          TAIL_COUNT,  \* TRUE: the rows after the last whole chunk are visited up to row (NP % BLOCK) instead of row NP (a seeded
+                       \*       defect - count taken for an end index: BestOwner must catch it as soon as NP > BLOCK, NP % BLOCK # 0)
+          START_INT,   \* TRUE: the starting translations were handed over as integers (grid nodes: grain.grain(ubi, [x, y, z]))
+          KEEP_DTYPE   \* TRUE: a grain keeps the type of the translation it was given, so the in-place store of refinepositions
+                       \*       truncates the fitted value (a seeded defect: StoredIsFitted must catch it when START_INT)
 Grains == 1..NG
 Peaks == 1..NP
 Perms == {p \in [Grains -> Grains] : \A i, j \in Grains : i # j => p[i] # p[j]}
@@ -129,14 +144,17 @@ AssignKernelGv == /\ call \in {"assign", "refpos"} /\ step = 2
                   /\ step' = 3
                   /\ Keep(<<par_t, grain_t, gen, lab, nfit, tol, call, cur, ncalls, bad, reset, presented, savedt, pk, sav, fresh>>)
 \* the loop body of score_and_assign for the grain at place cur (its errors are err[order[cur]])
+\* rows 1..NP of the peak file in chunks of BLOCK ; the rows the loop of one call visits
+NB == NP \div BLOCK
+Visited == IF TAIL_COUNT THEN {k \in Peaks : k <= NB * BLOCK \/ (k > NB * BLOCK /\ k <= NP % BLOCK)} ELSE Peaks
 Better(k) == err[order[cur]][k] < E /\ err[order[cur]][k] < drl[k]
 TakeLabel(k) == IF LAST_WINS THEN err[order[cur]][k] < E ELSE Better(k)
 AssignScore == /\ call \in {"assign", "refpos"} /\ step = 3
                /\ IF ~reset /\ presented = {} THEN Flag("score_and_assign before labels and errors were reset")
                   ELSE IF gvfor[1] # cur THEN Flag("score_and_assign on another grain's g-vectors") ELSE bad' = bad
                /\ presented' = presented \cup {cur} /\ reset' = FALSE
-               /\ own' = [k \in Peaks |-> IF TakeLabel(k) THEN cur ELSE IF own[k] = cur THEN 0 ELSE own[k]]
-               /\ drl' = [k \in Peaks |-> IF Better(k) THEN err[order[cur]][k] ELSE drl[k]]
+               /\ own' = [k \in Peaks |-> IF k \notin Visited THEN own[k] ELSE IF TakeLabel(k) THEN cur ELSE IF own[k] = cur THEN 0 ELSE own[k]]
+               /\ drl' = [k \in Peaks |-> IF k \in Visited /\ Better(k) THEN err[order[cur]][k] ELSE drl[k]]
                /\ IF cur < NG THEN cur' = cur + 1 /\ step' = 1 ELSE cur' = 1 /\ step' = 4
                /\ Keep(<<par_t, grain_t, gen, lab, nfit, tol, gvfor, call, ncalls, savedt, err, order, ind, savedpk, sav, fresh>>)
 \* second loop: per grain set_translation + tth/eta per grain (uses the parameter object)
@@ -161,8 +179,10 @@ RPGof == /\ call = "refpos" /\ step \in {12, 13}
          /\ par_t' = <<"trial", cur, 0>> /\ gvfor' = <<cur, <<"trial", cur, 0>>>> /\ step' = 13
          /\ Keep(<<grain_t, gen, lab, nfit, tol, call, cur, ncalls, bad, reset, presented, savedt, pk, sav, fresh>>)
 \* grains[key].translation = parameterobj t_x,t_y,t_z  (the last trial) ; then refine(ubi) on the shared gv
+\* translation[i] = t_i writes INTO the array the grain holds: the value it keeps is the fitted one only if that array is a float array
+Stored(g, n) == IF KEEP_DTYPE /\ START_INT THEN <<"trunc", g, n>> ELSE <<"fit", g, n>>
 RPStore == /\ call = "refpos" /\ step = 13 /\ nfit[cur] < MAXFIT
-           /\ grain_t' = [grain_t EXCEPT ![cur] = <<"fit", cur, nfit[cur] + 1>>]
+           /\ grain_t' = [grain_t EXCEPT ![cur] = Stored(cur, nfit[cur] + 1)]
            /\ nfit' = [nfit EXCEPT ![cur] = nfit[cur] + 1]
            /\ par_t' = <<"fit", cur, nfit[cur] + 1>>        \* same numbers: the object still holds them
            /\ gvfor' = <<cur, <<"fit", cur, nfit[cur] + 1>>>>
@@ -250,5 +270,7 @@ SavedColumnsOwn == fresh => \A k \in Peaks : own[k] # 0 => col[k] = <<own[k], gr
 SaveOrder == (call \in {"refubi", "save"}) =>
                 /\ \A g \in Grains : \E i \in Grains : sobj[i] = g
                 /\ (call = "refubi" => sobj = IdPerm)
+\* whatever type the start was handed over in: the translation a grain holds after its n-th position refinement is the fitted one
+StoredIsFitted == \A g \in Grains : nfit[g] > 0 => grain_t[g] = <<"fit", g, nfit[g]>>
 EachGrainOncePerPass == (call \in {"assign", "refpos"} /\ step = 4) => presented = Grains
 =============================================================================
